@@ -237,6 +237,14 @@ def quality_float(last, loss, J, D, R):
     return float(qv)
 
 
+def den_sign_bit(J, D, R) -> int:
+    """sign bit of the denominator exactly as strategy.py computes it: `-((J @ D).mT @ (2 * R + J @ D)).squeeze()`
+    (1 = the float is negative or -0.)"""
+    with torch.no_grad():
+        den = -((J @ D).mT @ (2 * R + J @ D)).squeeze()
+    return int(bool(torch.signbit(den)))
+
+
 def allowed_verdicts(h, last, loss, J, D, R, dtype):
     """verdicts the floating-point code may legitimately reach: the exact one, plus its neighbours when the exact
     quality is within rounding distance of a threshold. In the exact regime (the float replica reproduces the exact
@@ -246,7 +254,9 @@ def allowed_verdicts(h, last, loss, J, D, R, dtype):
     if den == 0:
         if num == 0:
             return {"bad"}, None
-        return {"very", "bad"}, None  # sign of a floating zero is not modelled
+        # x / ±0. = ±inf: the sign of the zero decides (model `verdictZ`); the code's zero is -0. when J D = 0
+        neg = den_sign_bit(J, D, R) == 1
+        return {"very" if ((num > 0) != neg) else "bad"}, None
     qx = num / den
     out = {classify(qx, Fraction(h["high"]), Fraction(h["low"]))}
     qf = quality_float(last, loss, J, D, R)
@@ -1603,7 +1613,7 @@ def upd_request(scn, kind, up, dtype, where=""):
     m, n = Jd.shape
     line = (f"c08.upd {KINDS[kind]} 9 {hyper_wire(up['hyper'])} {state_wire(up['pg_before'])} {wf(up['last'])} "
             f"{wf(up['loss'])} {m} {n} {wire_list(Jd.flatten().tolist())} {wire_list(up['D'].double().flatten().tolist())} "
-            f"{wire_list(up['R'].double().flatten().tolist())}")
+            f"{wire_list(up['R'].double().flatten().tolist())} {den_sign_bit(up['J'], up['D'], up['R'])}")
     return {"line": line, "scn": scn, "kind": kind, "up": up, "dtype": dtype, "where": where}
 
 
@@ -1627,7 +1637,18 @@ def settle_updates(ctx: Ctx, reqs, stream):
     for r, rep in zip(reqs, reps):
         st, toks = common.parse_reply(rep)
         if st != "ok":
+            if toks.strip() == "ZeroDivisionError":
+                ctx.count(f"{stream}.model-error.ZeroDivisionError")
+                if r["up"].get("raised") != "ZeroDivisionError":
+                    ctx.disagree(stream, r["scn"], f"{r['where']}: model: ZeroDivisionError, implementation: {r['up'].get('raised') or r['up']['pg_after']}")
+                    ctx.fail(r["scn"], f"strategy-{r['kind']}: {r['where']}: `1. / pg[...]` with a zero operand must raise ZeroDivisionError, "
+                                       f"the implementation produced {r['up'].get('raised') or r['up']['pg_after']}")
+                continue
             raise common.InfraError(f"model error on c08.upd: {rep}")
+        if r["up"].get("raised"):
+            ctx.disagree(stream, r["scn"], f"{r['where']}: implementation raised {r['up']['raised']}, model gives a state")
+            ctx.fail(r["scn"], f"strategy-{r['kind']}: {r['where']}: update raised {r['up']['raised']} on {r['up']['pg_before']}")
+            continue
         nums = [common.from_wire(t) for t in toks]
         r["model"] = nums
         r["verdict"] = VERDICTS[int(nums[3])]
@@ -2150,6 +2171,39 @@ def outputs_wire(outs) -> str:
         o2 = o.double().reshape(-1, o.shape[-1])
         toks.append(f"{o2.shape[0]} {o2.shape[1]} " + wire_list(o2.flatten().tolist()))
     return " ".join(toks)
+
+
+def run_empty_kernel(ctx: Ctx):
+    """`kernel=[]` is accepted by the constructors; the first loss evaluation raises IndexError (`self.kernel[0]`): the model's
+    `lossOfE` has that error branch"""
+    P = pp()
+    for via in ("lm", "gn"):
+        class Fixed(nn.Module):
+            def __init__(self):
+                super().__init__()
+                self.p = nn.Parameter(torch.zeros(1, dtype=torch.float64))
+
+            def forward(self, x):
+                return torch.ones(2, 2, dtype=torch.float64) + 0 * self.p
+        case = {"kind": "empty-kernel", "via": via}
+        try:
+            rm = (P.optim.LM(Fixed(), kernel=[]) if via == "lm" else P.optim.GN(Fixed(), kernel=[])).model
+            with torch.no_grad():
+                got = float(rm.loss(torch.zeros(1, dtype=torch.float64), None))
+            obs = f"value {got!r}"
+        except IndexError:
+            obs = "IndexError"
+        except Exception as ex:
+            obs = type(ex).__name__
+        rep = ctx.driver.run(["c08.lossk 2 0 " + outputs_wire([torch.ones(2, 2, dtype=torch.float64)])])[0]
+        st, toks = common.parse_reply(rep)
+        want = toks.strip() if st != "ok" else "value"
+        ctx.count(f"class.empty-kernel.{obs.split()[0]}")
+        ctx.note_case(("empty-kernel", via), True)
+        if want != obs:
+            ctx.disagree("loss", case, f"kernel=[] through {via}: implementation {obs}, model {want}")
+            ctx.fail(case, f"robust-loss: kernel=[] through {via}: the loss evaluation gives {obs}, the code path `self.kernel[0]` "
+                           f"on an empty list is {want}")
 
 
 def run_large_loss(ctx: Ctx, sizes, rng):
@@ -2799,6 +2853,59 @@ def alias_probes(ctx: Ctx):
         ctx.notes.append(f"probe failed: {e!r}")
 
 
+def direct_update(strat, pg, last, loss, J, D, R):
+    """strategy.update called directly; exceptions are part of the observation"""
+    rec = RecStrategy(strat)
+    before = pg_state(pg)
+    try:
+        rec.update(pg, last=last, loss=loss, J=J, D=D, R=R)
+        return rec.log[-1]
+    except ZeroDivisionError:
+        return {"pg_before": before, "hyper": pg_hyper(pg, strat), "last": last, "loss": loss, "J": J, "D": D, "R": R,
+                "pg_after": pg_state(pg), "raised": "ZeroDivisionError", "params": None}
+
+
+def run_zero_cases(ctx: Ctx):
+    """the zero-denominator case as the code has it (J D = 0: the sign of the floating zero decides between -inf and
+    +inf, 0/0 is NaN) and the ZeroDivisionError branch of TrustRegion (`1. / pg['damping']` with damping = 0, reachable
+    with TrustRegion(radius=inf))"""
+    reqs = []
+    for kind in ("adaptive", "trust"):
+        for dtype in ("float64", "float32"):
+            dt = getattr(torch, dtype)
+            for rsign in (1.0, -1.0):
+                for dval in (0.0, -0.0):
+                    for num in (1.0, -1.0, 0.0):
+                        spec = {"kind": kind, "damping": 0.5, "radius": 2.0, "high": 0.5, "low": 0.125, "up": 2.0, "down": 0.5,
+                                "factor": 0.5, "min": 2.0 ** -10, "max": 2.0 ** 10}
+                        strat = make_strategy(spec)
+                        pg = dict(strat.defaults)
+                        J = torch.tensor([[1.0], [2.0]], dtype=dt)
+                        D = torch.tensor([[dval]], dtype=dt)
+                        R = torch.tensor([[rsign], [rsign]], dtype=dt)
+                        last, loss = torch.tensor(2.0 + num, dtype=dt), torch.tensor(2.0, dtype=dt)
+                        case = {"kind": "upd", "spec": spec, "pg": {k: float(v) for k, v in pg.items()}, "dtype": dtype,
+                                "last": float(last), "loss": float(loss), "J": J.tolist(), "D": D.tolist(), "R": R.tolist()}
+                        up_ = direct_update(strat, pg, last, loss, J, D, R)
+                        reqs.append(upd_request(case, kind, up_, dtype, where="zero-denominator corpus"))
+                        ctx.count(f"class.zero-den.signbit={den_sign_bit(J, D, R)}")
+    # TrustRegion with a zero damping (radius = inf): ZeroDivisionError
+    for rad in (float("inf"),):
+        spec = {"kind": "trust", "damping": 0.0, "radius": rad, "high": 0.5, "low": 0.125, "up": 2.0, "down": 0.5,
+                "factor": 0.5, "min": 1e-6, "max": 1e16}
+        strat = make_strategy(spec)
+        pg = dict(strat.defaults)
+        dt = torch.float64
+        J, D, R = torch.tensor([[1.0]], dtype=dt), torch.tensor([[1.0]], dtype=dt), torch.tensor([[-1.0]], dtype=dt)
+        case = {"kind": "upd", "spec": {**spec, "radius": 1e308}, "pg": {k: float(v) for k, v in pg.items() if math.isfinite(float(v))},
+                "dtype": "float64", "last": 3.0, "loss": 2.0, "J": J.tolist(), "D": D.tolist(), "R": R.tolist(), "zero_damping": True}
+        up_ = direct_update(strat, pg, torch.tensor(3.0, dtype=dt), torch.tensor(2.0, dtype=dt), J, D, R)
+        up_["pg_before"] = {"damping": 0.0, "radius": 1.0, "down": 0.5}      # `inf` does not travel; only damping = 0 matters
+        reqs.append(upd_request(case, "trust", up_, "float64", where="TrustRegion(radius=inf)"))
+        ctx.count("class.zero-damping")
+    settle_updates(ctx, reqs, "zero")
+
+
 def run_tie_updates(ctx: Ctx):
     """exact coincidences: damping exactly on min / max, damping·up exactly max, damping·down exactly min, high == low,
     quality exactly on a threshold (all dyadic: every float operation is exact), for every strategy and both dtypes"""
@@ -2835,6 +2942,8 @@ def run_corpus(ctx: Ctx):
     run_upd_stream(ctx, 300, rc)
     run_init_stream(ctx, 60, rc)
     run_tie_updates(ctx)
+    run_zero_cases(ctx)
+    run_empty_kernel(ctx)
     run_large_loss(ctx, [255, 257, 4097, 16385, 65537] if ctx.quick else
                    [2 ** k + e_ for k in range(6, 17) for e_ in (-1, 0, 1)] + [100003, 131073], rc)
     run_hist_stream(ctx, 24, rc)
@@ -2946,6 +3055,8 @@ def replay(ctx: Ctx, case) -> bool:
         settle_updates(ctx, [upd_request(c, spec["kind"], up, c["dtype"], where="direct update")], "upd")
     elif kind == "hist":
         settle_hist(ctx, [run_hist_case(ctx, c)])
+    elif kind == "empty-kernel":
+        run_empty_kernel(ctx)
     elif kind == "init":
         import random
         print("  (init cases are re-generated from the spec)")
